@@ -27,6 +27,23 @@ from functools import wraps
 _max_size = 4096 * 2 * 2  # approx 40 Mo
 _max_size = 4096
 
+# Verification hook (add-only, off unless the environment variable SPIL_VERIF is set):
+# every cache decision is appended to _verif_events as
+# (function qualname, args, kwargs, "hit" | "miss" | "store" | "evict", evicted key or None).
+import os as _os
+_verif_events = [] if _os.environ.get("SPIL_VERIF") else None
+
+
+def _verif_log(user_function, args, kwargs, what, evicted=None):
+    if _verif_events is not None:
+        _verif_events.append((getattr(user_function, "__qualname__", str(user_function)), args, dict(kwargs), what, evicted))
+
+
+def _verif_last_key(cache):
+    if _verif_events is not None and cache:
+        return next(reversed(cache))
+    return None
+
 
 def lru_cache(user_function):
     cache = {}
@@ -37,9 +54,14 @@ def lru_cache(user_function):
         if key not in cache:
             # Validate we didn't exceed the max_size:
             if len(cache) >= _max_size:
+                _verif_log(user_function, args, kwargs, "evict", _verif_last_key(cache))
                 cache.popitem()
                 # cache.clear()
+            _verif_log(user_function, args, kwargs, "miss")
             cache[key] = user_function(*args, **kwargs)
+            _verif_log(user_function, args, kwargs, "store")
+        else:
+            _verif_log(user_function, args, kwargs, "hit")
         return cache[key]
 
     def cache_clear():
@@ -67,11 +89,15 @@ def lru_kw_cache(user_function):
             #stats[1] += 1  # miss
             # Validate we didn't exceed the max_size:
             if len(cache) >= _max_size:
+                _verif_log(user_function, args, kwargs, "evict", _verif_last_key(cache))
                 cache.popitem()
                 # cache.clear()
+            _verif_log(user_function, args, kwargs, "miss")
             cache[key] = user_function(*args, **kwargs)
+            _verif_log(user_function, args, kwargs, "store")
         else:
             #stats[0] += 1  # hit
+            _verif_log(user_function, args, kwargs, "hit")
             pass
         return cache[key]
 
